@@ -3,6 +3,7 @@
 package main
 
 import (
+	"verif/checks/c18"
 	"verif/checks/fast"
 )
 
@@ -10,4 +11,5 @@ func init() {
 	taskHandlers["C08"] = fast.Handle
 	taskHandlers["C09"] = fast.Handle
 	taskHandlers["C10"] = fast.Handle
+	taskHandlers["C18"] = c18.Handle
 }
